@@ -146,8 +146,16 @@ struct OSys : vf::SysBase {
       default: if (!m.g.hasN((U)p.a)) return "graph.deleteNode[absent-node]"; ex = MUST_OK; return "graph.deleteNode";
     }
   }
+  // createNode(origin,new,edge) is createNode(new) followed by link(origin,new,edge): when the link must raise, the new node
+  // exists already (orphan, associated). The views stay consistent, so the reference models exactly that sequential effect.
+  bool partialCreate(const Op& p) const { return p.k == CREATE_FROM && !hasN(p.b) && (!hasN(p.a) || hasE(p.c)); }
   bool enabled(int i) {
     const Op& p = ops[i];
+    // associating an object with an id that does not exist (yet) is how the tree observers prepare link(a,b,edgeId): allowed by the
+    // library, not part of the property -> not driven
+    if (p.k == ASSOCN && !hasN(p.a) && !m.g.hasN((U)p.b)) return false;
+    if (p.k == ASSOCE && !hasE(p.a) && !m.g.hasE((U)p.b)) return false;
+    if (partialCreate(p)) return (int)m.g.nextN + 1 <= NN;
     if (expect(p) == MUST_RAISE) {
       // the objects of a pool are interchangeable: a single-object operation on an object that is not in the graph is tried with
       // the lowest-numbered such object only
@@ -219,6 +227,7 @@ struct OSys : vf::SysBase {
     if (audit) kg.ctx = k.ctx = "state [" + m.proj() + "] then " + opname(i);
     if (p.k == COPY) { if (audit) copyCheck(k, before); return; }
     Outcome out = RETURNED; std::string what; U ret = 0;
+    bool partial = partialCreate(p), createdBeforeRaise = false;
     NR na = (p.a >= 0 && p.a < KN) ? N[p.a] : NR(), nb = (p.b >= 0 && p.b < KN) ? N[p.b] : NR();
     ER ec = (p.c >= 0 && p.c < KE) ? E[p.c] : ER(), ea = (p.a >= 0 && p.a < KE) ? E[p.a] : ER();
     try {
@@ -249,6 +258,7 @@ struct OSys : vf::SysBase {
     catch (std::exception& e) { out = RAISED_FOREIGN; what = std::string(typeid(e).name()) + " '" + line1(e.what()) + "'"; }
     // reference
     std::string retBad;
+    if (partial && out != RETURNED && o->subjectGraph_->highestNodeID_ == m.g.nextN + 1) { createdBeforeRaise = true; m.nodeOf[p.b] = m.g.newNode(); }
     if (out == RETURNED && ex != MUST_RAISE) switch (p.k) {
       case CREATE: m.nodeOf[p.a] = m.g.newNode(); break;
       case CREATE_FROM: { U n = m.g.newNode(); m.nodeOf[p.b] = n; U e = m.g.newEdge(m.nodeOf.at(p.a), n); if (p.c >= 0) m.edgeOf[p.c] = e; break; }
@@ -273,7 +283,7 @@ struct OSys : vf::SysBase {
     }
     if (!audit) return;
     std::string after = dumpImpl();
-    judgeOutcome(kg, ex, out, what, after != before);
+    judgeOutcome(kg, ex, out, what, after != before && !createdBeforeRaise);
     if (after != before) s.nontrivial = true;
     s.tag(k.part + " " + cls);
     if (s.diverged) return;
